@@ -92,6 +92,7 @@ def base_configs():
         ("io-timeout-only", {"timeout": 2.5}),
         ("connect-timeout-only", {"connect_timeout": 1.5}),
         ("no_delay", {"no_delay": True}),
+        ("unix-server", {"_unix_server": True}),
     ]
 
 
@@ -207,6 +208,8 @@ def ops_grid(cfgname):
     add("get_many", "get_many", ["h1", "m1", "num"])
     add("get_many-tuple", "get_many", ("h1", b"h2"))
     add("get_many-empty", "get_many", [])
+    add("get_many-600-keys", "get_many", ["h1", "num"] + ["absent-%03d" % j for j in range(600)])
+    add("gets_many-1100-keys", "gets_many", ["absent-%04d" % j for j in range(1100)] + ["h1"])
     add("gets_many", "gets_many", ["h1", "m1", "num"])
     add("delete_many", "delete_many", ["h1", "m1"], noreply=False)
     add("delete_many-default", "delete_many", ["h1", "m1"])
@@ -253,6 +256,8 @@ def build(stack, net, cfg):
     from pymemcache.client.retrying import RetryingClient
     kw = dict(cfg, socket_module=net)
     s = ("mc1", 11211)
+    if kw.pop("_unix_server", False):
+        s = "/var/run/memcached/mc1.sock"           # the server as a UNIX socket path (client.server is then a str)
     if stack == "client":
         return base.Client(s, **kw)
     if stack == "pooled":
@@ -267,6 +272,8 @@ def build(stack, net, cfg):
 def run_one(stack, cfg, method, args, kwargs):
     net = FakeNet()
     srv = net.add_server("mc1", 11211, RefServer())
+    if cfg.get("_unix_server"):
+        net.add_unix("/var/run/memcached/mc1.sock", srv)
     prefill(srv, cfg.get("key_prefix", b""))
     try:
         obj = build(stack, net, cfg)
@@ -300,6 +307,8 @@ def run_session(stack, cfg, ops):
     """several calls in a row on ONE object -> per step (outcome, commands parsed during that step)"""
     net = FakeNet()
     srv = net.add_server("mc1", 11211, RefServer())
+    if cfg.get("_unix_server"):
+        net.add_unix("/var/run/memcached/mc1.sock", srv)
     prefill(srv, cfg.get("key_prefix", b""))
     try:
         obj = build(stack, net, cfg)
